@@ -251,7 +251,9 @@ Definition dijkstra (fuel : nat) (stk : vstack) (p : nat) : outcome (list node) 
   phase1 fuel [(0%N, [mkNode stk p RTerm 0%N])] 1%N 0%N 1%N.
 
 (* rank_cnds: rpr_seqs[0] of every candidate is applied (apply_repairs, failures ignored), then
-   plain parsing up to in_laidx + TRY_PARSE_AT_MOST; only the furthest survive *)
+   plain parsing up to limit = in_laidx + TRY_PARSE_AT_MOST — only if the candidate's own repairs ended
+   before the limit — and the distance is min(laidx, limit) (/repo 00915cc; Model.cap_dist); only the
+   furthest survive.  [rank_each_orig] / [search_mirror_orig] below: the code as it was pinned. *)
 Fixpoint rank_each (TRY : nat) (stk : vstack) (p : nat) (cnds : list (list (list repair)))
   : outcome (list (nat * list (list repair))) :=
   match cnds with
@@ -263,7 +265,7 @@ Fixpoint rank_each (TRY : nat) (stk : vstack) (p : nat) (cnds : list (list (list
           match apply_seq g A input ifuel s0 0 stk p None with
           | Done (stk', p', _) =>
               do rest <- rank_each TRY stk p r;
-              Done ((parse_far g A input ifuel (length input + 2) stk' p' (p + TRY), seqs) :: rest)
+              Done ((cap_dist (parse_far g A input ifuel (length input + 2) stk' p' (p + TRY)) p' (p + TRY), seqs) :: rest)
           | Panic => Panic
           | OutOfFuel => OutOfFuel
           end
@@ -277,6 +279,42 @@ Definition search_mirror (TRY : nat) (avoid : list N) (fuel : nat) (stk : vstack
   | [] => Done []
   | _ =>
       do ranked <- rank_each TRY stk p (map (fun n => unfold (n_rep n)) cnds);
+      let furthest := list_max (map fst ranked) in
+      let kept := flat_map snd (filter (fun x => Nat.eqb (fst x) furthest) ranked) in
+      Done (simplify avoid kept)
+  end.
+
+(* the ranking as it was pinned: `laidx = lr_upto(None, laidx, in_laidx + TRY_PARSE_AT_MOST, ..)` for every
+   candidate, `while laidx != end_laidx && ..`: no stop for a candidate that starts beyond the limit *)
+Fixpoint rank_each_orig (TRY : nat) (stk : vstack) (p : nat) (cnds : list (list (list repair)))
+  : outcome (list (nat * list (list repair))) :=
+  match cnds with
+  | [] => Done []
+  | seqs :: r =>
+      match seqs with
+      | [] => Panic
+      | s0 :: _ =>
+          match apply_seq g A input ifuel s0 0 stk p None with
+          | Done (stk', p', _) =>
+              do rest <- rank_each_orig TRY stk p r;
+              Done ((parse_far g A input ifuel (length input + 2) stk' p' (p + TRY), seqs) :: rest)
+          | Panic => Panic
+          | OutOfFuel => OutOfFuel
+          end
+      end
+  end.
+
+(* what survives the rank filter *)
+Definition rank_keep (ranked : list (nat * list (list repair))) : list (list (list repair)) :=
+  map snd (filter (fun x => Nat.eqb (fst x) (list_max (map fst ranked))) ranked).
+
+Definition search_mirror_orig (TRY : nat) (avoid : list N) (fuel : nat) (stk : vstack) (p : nat)
+  : outcome (list (list repair)) :=
+  do cnds <- dijkstra fuel stk p;
+  match cnds with
+  | [] => Done []
+  | _ =>
+      do ranked <- rank_each_orig TRY stk p (map (fun n => unfold (n_rep n)) cnds);
       let furthest := list_max (map fst ranked) in
       let kept := flat_map snd (filter (fun x => Nat.eqb (fst x) furthest) ranked) in
       Done (simplify avoid kept)
